@@ -202,3 +202,27 @@ def compile_objs_driver(driver_cpp_text, repo_sources, sanitize=True, opt='-O1')
     finally:
         shutil.rmtree(d, ignore_errors=True)
     return out
+
+
+def compile_ir_text(text, tag, dep_rels=()):
+    """lower a small generated translation unit (which #includes /repo sources by absolute path) to IR"""
+    deps = [repo_path(r) for r in dep_rels]
+    flags = IRFLAGS + DEFS
+    os.makedirs(CACHE, exist_ok=True)
+    h = hashlib.sha256(text.encode()).hexdigest()[:12]
+    out = os.path.join(CACHE, 'irt_%s_%s_%s.ll' % (tag, h, _key(deps, flags)))
+    if not os.path.exists(out):
+        src = out[:-3] + '.%d.cpp' % os.getpid()
+        with open(src, 'w') as f:
+            f.write(text)
+        tmp = out + '.%d.tmp' % os.getpid()
+        r = subprocess.run([CXX] + flags + _inc() + [src, '-o', tmp], capture_output=True, text=True)
+        try:
+            os.remove(src)
+        except OSError:
+            pass
+        if r.returncode != 0:
+            raise RuntimeError('IR lowering failed for generated unit %s:\n%s' % (tag, r.stderr[-2000:]))
+        os.replace(tmp, out)
+    with open(out) as f:
+        return f.read()
